@@ -55,6 +55,15 @@ func c14Register(r *Rig, reg string) {
 		c03NoDefaultPrompt = true
 		c03Register(r)
 		c03NoDefaultPrompt = false
+		// a registration history, the same on every server kind: two more tools, then one call that
+		// unregisters an unknown name, an empty name and one of the two
+		for _, n := range []string{"zz-alpha", "zz-beta"} {
+			n := n
+			r.RegisterTool(mcp.NewTool(n), func(ctx context.Context, req *mcp.CallToolRequest) (*mcp.CallToolResult, error) {
+				return mcp.NewTextResult(n), nil
+			})
+		}
+		r.UnregisterTools("zz-ghost", "", "zz-alpha")
 	}
 }
 
